@@ -51,7 +51,27 @@ pub struct Stats {
 /// The distinct-case set is capped (memory); the evidence says so when the cap is reached.
 pub const DISTINCT_CAP: usize = 4_000_000;
 
+static TOLERATED: std::sync::OnceLock<BTreeSet<String>> = std::sync::OnceLock::new();
+
+/// Signatures of recorded known findings (kind "known") that a world may step over so that a
+/// run continues past them. Set once by the driver; empty if never set.
+pub fn set_tolerated_signatures(s: BTreeSet<String>) {
+    let _ = TOLERATED.set(s);
+}
+
+pub const KNOWN_COUNTER_PREFIX: &str = "known_finding.";
+
 impl Stats {
+    /// True (and counted) iff `signature` is a recorded known finding: the world continues the run
+    /// instead of ending it with this violation; the driver prints the KNOWN-FINDING line.
+    pub fn tolerate(&mut self, signature: &str) -> bool {
+        if TOLERATED.get().map(|s| s.contains(signature)).unwrap_or(false) {
+            self.bump(&format!("{}{}", KNOWN_COUNTER_PREFIX, signature));
+            true
+        } else {
+            false
+        }
+    }
     pub fn bump(&mut self, key: &str) {
         self.add(key, 1);
     }
